@@ -847,7 +847,7 @@ DEEP_PRINTERS = [("write-simple", "(printed write-simple X)"), ("write", "(print
 
 def deep_cases(thorough):
     """(name, expression with {n}, depth, C stack in KB) — the expression is the body of a thunk run under a handler.
-    C stacks: 8192 = the usual default; 2048 = reduced (enough for every depth-BOUNDED recursion of the printer,
+    C stacks: 8192 = the usual default; 2048 (3072 for the C printer) = reduced (enough for every depth-BOUNDED recursion of the printer,
     equal?, hash and strip-syntactic-closures at their bounds — measured on the baseline — so that an unbounded one
     overflows at a depth of ~25000 already; the analyzer at SEXP_MAX_ANALYZE_DEPTH needs 4-8 MB: expressions run
     with 8192 only)"""
@@ -880,8 +880,10 @@ def deep_cases(thorough):
                 if level == "S" and thorough and ll == "car" and cn in ("print:write", "equal"):
                     plan.append((120000, 8192))     # ~5 min each: quadratic collector work, ends in the VM's out-of-stack error
                 for n, kb in plan:
+                    if kb == 2048 and cn == "print:write-simple":
+                        kb = 3072       # the bounded printer needs 1.3-1.5 MB at its bound: factor 2
                     out.append(("%s:%s" % (cn, ll), e, n, kb))
-    for n, kb in [(9990, 2048), (10010, 2048), (40000, 2048), (120000, 8192)] + ([(1000000, 8192)] if thorough else []):
+    for n, kb in [(9990, 3072), (10010, 3072), (40000, 3072), (120000, 8192)] + ([(1000000, 8192)] if thorough else []):
         out.append(("print:write-simple:synclo", "(printed write-simple (nest-synclo {n} 'x))", n, kb))
     big = [100000, 1000000] + ([5000000] if thorough else [])
     for n in big:
@@ -945,6 +947,8 @@ def deep_cases(thorough):
                       ("sread-quotes", "(read (open-input-string (string-append (make-string {n} #\\') \"x\")))")):
             if not thorough and n < 10000 and nm not in ("opcode", "app", "lambda", "let", "quasiquote-template", "read-parens", "if"):
                 continue
+            if nm.startswith("sread-") and n > 120000:
+                continue             # the Scheme reader at 10^6 levels: minutes of collector work
             if nm.startswith("read-") and n == 120000:
                 n_ = 400000          # the C reader's frames are small: 120000 levels fit in 8 MB even without a bound
             else:
@@ -961,7 +965,7 @@ def deep_cases(thorough):
                   ("eval:car", "(eval (cycle-car) deep-env)"), ("eval:cdr", "(eval (cycle-cdr) deep-env)"), ("eval-quote:car", "(pair? (eval (list 'quote (cycle-car)) deep-env))"),
                   ("eval-quote:vec", "(vector? (eval (list 'quote (cycle-vec 0)) deep-env))"),
                   ("read:label", "(printed write-simple (read (open-input-string \"#0=(#0# . #0#)\")))")):
-        out.append(("cyclic:" + nm, e, 0, 8192 if nm.startswith("eval:") else 2048))
+        out.append(("cyclic:" + nm, e, 0, 8192 if nm.startswith("eval:") else 3072 if "write-simple" in nm or nm == "read:label" else 2048))
     return out
 
 
@@ -1044,7 +1048,7 @@ def deep_stream(ctx, dflt):
                       observed="%s rc=%s after %.1fs %s" % (cls, rc, dt, ((out or "") + (err or ""))[-200:].replace("\n", " | ")),
                       replay=deep_replay(dflt, expr, kb))
     ctx.cov["deep_data_outcomes"] = tally
-    ctx.note("deep-data stream: %d cases (one process each; C stack 8192 KB / 2048 KB), outcomes %s; slowest %s"
+    ctx.note("deep-data stream: %d cases (one process each; C stack 8192 KB / reduced 3072 or 2048 KB), outcomes %s; slowest %s"
              % (len(cases), tally, slowest))
     for nm, expr, n, kb, rc, out, err, dt in res[:1]:
         ctx.sample(dict(kind="deep", expr=expr, stack_kb=kb, impl=(out or "").strip()[-80:], rc=rc))
